@@ -859,7 +859,7 @@ pub fn run(ctx: &Ctx, rep: &mut Report) {
                                 };
                                 let mut pr = None;
                                 visit_at(root.as_dyn(), &sel.path, &mut |nn| pr = nn.probe());
-                                let want = Probe { len, cap: Some(cap), remaining: Some(cap - len.min(cap)), is_empty: len == 0, is_full: Some(len == cap) };
+                                let want = Probe { len, cap: Some(cap), remaining: Some(cap - len.min(cap)), is_empty: len == 0, is_full: Some(len == cap), iter_count: None };
                                 if pr.as_ref() != Some(&want) {
                                     viol.push((format!("C11|probe-differs|{}|{}", op.name(), kinds), format!("after {}: library reports {:?}, model {:?}", opdesc, pr, want)));
                                 }
@@ -897,7 +897,7 @@ pub fn run(ctx: &Ctx, rep: &mut Report) {
                             let len = nv2.fields().len();
                             let mut pr = None;
                             visit_at(root.as_dyn(), &sel.path, &mut |nn| pr = nn.probe());
-                            if pr.as_ref().map(|p| (p.len, p.is_empty)) != Some((len, len == 0)) {
+                            if pr.as_ref().map(|p| (p.len, p.is_empty, p.iter_count)) != Some((len, len == 0, Some(len))) {
                                 viol.push((format!("C12|probe-differs|{}|{}", op.name(), kinds), format!("after {}: library reports {:?}, model len {}", opdesc, pr, len)));
                             }
                             if matches!(op, Op::FPop | Op::FTruncate(_)) && nv.fields().len() >= 3 {
